@@ -2215,8 +2215,10 @@ def _config_str(
     macros = {}
     for (scope, selector), config in configuration_object.items():
       # A macro that was used while unbound (the failed call still leaves an
-      # empty record behind) has no value to print.
-      if _REGISTRY[selector].wrapped == macro and 'value' in config:  # pylint: disable=comparison-with-callable
+      # empty record behind) has no value to print; neither has one whose value
+      # has no literal representation (like any other such parameter).
+      if (_REGISTRY[selector].wrapped == macro and 'value' in config and  # pylint: disable=comparison-with-callable
+          _is_literally_representable(config['value'])):
         macros[scope, selector] = config
     if macros:
       formatted_statements.append('# Macros:')
